@@ -217,9 +217,14 @@ std::string Mem::verify_one(const void *p, bool *is_canary) const
 }
 
 // ---------------------------------------------------------------- fault handler
+bool (*g_fault_filter)(uintptr_t addr, bool write) = nullptr;
+
 static void on_fault(int sig, siginfo_t *si, void *uc_)
 {
         ucontext_t *uc = (ucontext_t *) uc_;
+        if (g_fault_filter && (sig == SIGSEGV || sig == SIGBUS) &&
+            g_fault_filter((uintptr_t) si->si_addr, (uc->uc_mcontext.gregs[REG_ERR] & 2) != 0))
+                return; // handled: the faulting instruction is re-executed
         if (!g_fault_armed) {
                 // a fault outside a library call is a harness error: die loudly with default action
                 signal(sig, SIG_DFL);
